@@ -132,6 +132,12 @@ CHECKS = {
         "With equal digests a digest-only lookup cannot distinguish layers: typed getters are asserted against the first layer with that digest (see evidence assumptions); positional listings are asserted strictly. No registry access (local archives only).",
         "explicit-state exploration of operation histories on the real builder/reader vs a Vec reference model",
     ),
+    "C07": (
+        "model_checking",
+        "The model is the schema itself, parsed from proto/ommx/v1/*.proto by the harness's own parser (31 messages, 121 fields, 5 enums). (1) Binding the model to the implementations, exhaustively over every message / field / enum value: the prost attributes of rust/ommx/src/ommx.v1.rs (struct <-> message, field name, tag, type, optional/repeated/map/oneof, enum discriminants and as_str_name tables), the serialized FileDescriptorProto embedded in each python/ommx/ommx/v1/*_pb2.py (extracted with ast, decoded with the harness's own wire decoder) and the field lists of the .pyi stubs must all equal the model. (2) Every model state of every message type is replayed on the real prost code: every subset of field slots (all subsets for <= 8 slots, size <= 3 otherwise) x every alternative value per slot (repeated with 1-2 elements, maps with 1-2 entries, each oneof arm, nested messages populated one level deep and present-but-empty, every declared enum value and an undeclared one, explicit-presence defaults), encoded by the harness's own schema-driven encoder in 5 encodings (packed / unpacked repeated scalars, reversed field order, appended unknown fields of every wire type) -> M::decode must succeed -> the set of Rust fields that changed (read from the Debug rendering, which names every Rust field) must be exactly the fields sent and enum values must render as the schema's names -> encode_to_vec -> the harness's own decoder must recover the content with schema-conforming wire types -> decode(encode(m)) == m. (3) data/random_lp_instance.ommx, written by an earlier release, must open, decode, validate and re-encode to an equal message.",
+        "No Python protobuf runtime is installed: the Python classes are not executed; their embedded descriptors are compared statically. Trusted base of the static step (prost's derive honours its attributes) is exactly what the dynamic step checks. python3 (stdlib only) is used for the three schema scrapers.",
+        "explicit enumeration of schema states replayed on the real codec through an independent codec, plus exhaustive static binding of the schema model to the generated bindings",
+    ),
 }
 
 NOT_YET = "check not yet implemented in this revision of /verif (planned in DESIGN.md section 5)"
